@@ -54,7 +54,11 @@ func FlushInterval(interval time.Duration) LoggerOption {
 }
 
 func NewLogger(w io.Writer, label string, opts ...LoggerOption) (Logger, error) {
-	zapl, err := zap.NewProduction()
+	// every error is to be reported: the production preset samples entries
+	// with the same message (the scan label) to 100 per second
+	zapConf := zap.NewProductionConfig()
+	zapConf.Sampling = nil
+	zapl, err := zapConf.Build()
 	if err != nil {
 		return nil, err
 	}
